@@ -141,6 +141,7 @@ def sh(cmd, cwd, timeout):
         return 124, (e.stdout or b"").decode(errors="replace") if isinstance(e.stdout, bytes) else (e.stdout or "")
 
 lock = threading.Lock()
+suite_lock = threading.Lock()
 
 def run_one(m, wt, props_of):
     path = os.path.join(wt, m["file"])
@@ -156,7 +157,12 @@ def run_one(m, wt, props_of):
         if rc != 0:
             res["result"] = "nocompile"
             return res
-        rc, out = sh(["go", "test", "-count=1", "-timeout", "120s", "./..."], wt, 400)
+        with suite_lock:  # the repository's suite binds a fixed TCP port (ttheader TestEncode): one run at a time
+            rc, out = sh(["go", "test", "-count=1", "-timeout", "120s", "./..."], wt, 400)
+        if rc != 0 and "address already in use" in out:
+            time.sleep(5)
+            with suite_lock:
+                rc, out = sh(["go", "test", "-count=1", "-timeout", "120s", "./..."], wt, 400)
         if rc != 0:
             res["result"] = "suite"
             return res
